@@ -46,7 +46,7 @@ class C13(PipelineCheck):
     assumptions = ['the handler sits directly behind the failing operator (what the statement specifies)',
                    'with handler "none" the failing operator is either the last one of its pipeline, so that the mux error reaches the '
                    'demultiplexer directly, or is followed by operators that hand a mux error on (no take/first, which end a key early)']
-    probe_names = ('unhandled_error_through_operators', 'exception_families', 'falsy_exception_raised', 'fault:first', 'fault:last', 'fault:consecutive', 'fault:all_of_a_key', 'handler:ignore', 'handler:error_map',
+    probe_names = ('dead_letter_subscribed_after_data', 'unhandled_error_through_operators', 'exception_families', 'falsy_exception_raised', 'fault:first', 'fault:last', 'fault:consecutive', 'fault:all_of_a_key', 'handler:ignore', 'handler:error_map',
                    'handler:router', 'handler:none', 'op:map', 'op:starmap', 'op:filter', 'op:scan', 'stateful_downstream', 'keys>=3',
                    'wrapped_in_window')
 
@@ -156,6 +156,8 @@ class C13(PipelineCheck):
                 'faults': {SITE: plan}, 'pattern': pattern, 'falsy': rng.choice([False, False, False, True, 'types', 'types'])}
         if through:
             case['through'] = True
+        if handler == 'router' and rng.random() < 0.3:
+            case['late_dead_letter'] = True      # errors.subscribe() after the data stream was subscribed (before the first item)
         if not self.valid(case):
             case['program'] = [{'op': 'group_by', 'key': 'rk', 'inner': [dict(op)] + ([{'op': handler}] if handler not in ('none', 'error_map') else
                                                                                  ([{'op': 'error_map', 'value': {'rec': 'rec', 'int': -1, 'list': []}[ot]}]
@@ -170,7 +172,8 @@ class C13(PipelineCheck):
         handler = case['handler']
         fail = {SITE: sorted(plan)}
         falsy = case.get('falsy') or False
-        ctx, final, escaped = run_mux(program, events, 'complete', monitor=False, fail=fail, extra={'falsy_faults': falsy})
+        ctx, final, escaped = run_mux(program, events, 'complete', monitor=False, fail=fail,
+                                      extra={'falsy_faults': falsy, 'late_dead_letter': bool(case.get('late_dead_letter'))})
         out.shape = (shape_of(case), tuple(sorted(plan)), handler)
         out.steps = len(events) + 1
         out.ticks = events[-1]['t'] if events else 0
@@ -241,7 +244,8 @@ class C13(PipelineCheck):
             prog_b = copy.deepcopy(program)
             nb, ib, _ = locate(prog_b)
             nb.insert(ib, {'op': 'drop_planned', 'site': SITE})
-            cb, fb, eb = run_mux(prog_b, events, 'complete', monitor=False, fail={}, extra={'drop': {SITE: sorted(plan)}})
+            cb, fb, eb = run_mux(prog_b, events, 'complete', monitor=False, fail={},
+                                 extra={'drop': {SITE: sorted(plan)}, 'late_dead_letter': bool(case.get('late_dead_letter'))})
             if not cb.aborted:
                 ha = [(s, k, key, v) for _, s, k, key, v in ctx.taps.get(hout, [])]
                 hb = [(s, k, key, v) for _, s, k, key, v in cb.taps.get('%s/%d' % (path, i + 3), [])]
@@ -315,6 +319,8 @@ class C13(PipelineCheck):
             p['keys>=3'] += 1
         if program[0]['op'] in ('roll', 'split'):
             p['wrapped_in_window'] += 1
+        if case.get('late_dead_letter') and fired:
+            p['dead_letter_subscribed_after_data'] += 1
         if handler == 'none' and len(nodes) > i + 1 and fired:
             p['unhandled_error_through_operators'] += 1
         if handler != 'none' and len(nodes) > i + 2:
